@@ -767,19 +767,56 @@ def assigned_vars(stmts, acc=None):
     return acc
 
 
-def subst_closure_calls(stmts, fname, closure):
+def has_return(stmts):
+    for st in stmts:
+        if st[0] == "return":
+            return True
+        if st[0] in ("while",) and has_return(st[2]):
+            return True
+        if st[0] == "for" and has_return(st[3]):
+            return True
+        if st[0] == "expr" and isinstance(st[1], tuple) and st[1][0] == "if" and (has_return(st[1][2]) or has_return(st[1][3] or [])):
+            return True
+    return False
+
+
+def returns_to_continue(stmts):
+    """a `return` inside a closure ends the CLOSURE call; when that call is the last statement of a loop body this is
+    `continue` (only top-level and if-nested returns: a return inside a loop of the closure would need a label)"""
+    out = []
+    for st in stmts:
+        if st[0] == "return":
+            if st[1] is not None:
+                raise Untranslatable("closure returning a value")
+            out.append(("continue",))
+        elif st[0] == "expr" and isinstance(st[1], tuple) and st[1][0] == "if":
+            e = st[1]
+            out.append(("expr", ("if", e[1], returns_to_continue(e[2]), returns_to_continue(e[3]) if e[3] is not None else None), st[2]))
+        elif st[0] in ("while", "for") and has_return(st[2] if st[0] == "while" else st[3]):
+            raise Untranslatable("return inside a loop inside a closure")
+        else:
+            out.append(st)
+    return out
+
+
+def subst_closure_calls(stmts, fname, closure, loop_body=False):
     """statements with every call statement `fname(arg)` replaced by the closure's body (parameter bound to arg)"""
     _, ps, rt, cbody = closure
     out = []
-    for st in stmts:
+    for ix, st in enumerate(stmts):
         if st[0] == "expr" and isinstance(st[1], tuple) and st[1][0] == "call" and st[1][1] == [fname]:
             if len(ps) != len(st[1][2]):
                 raise Untranslatable("closure arity")
-            out += [("let", pn, pt, a, False) for (pn, pt), a in zip(ps, st[1][2])] + list(cbody)
+            body = list(cbody)
+            if has_return(body):
+                if not (loop_body and ix == len(stmts) - 1):
+                    raise Untranslatable("closure with `return` called elsewhere than at the end of a loop body")
+                body = returns_to_continue(body)
+            out += [("let", pn, pt, a, False) for (pn, pt), a in zip(ps, st[1][2])] + body
         elif st[0] == "while":
-            out.append(("while", st[1], subst_closure_calls(st[2], fname, closure)))
+            out.append(("while", st[1], subst_closure_calls(st[2], fname, closure, True)))
         elif st[0] == "for":
-            out.append(("for", st[1], st[2], subst_closure_calls(st[3], fname, closure)))
+            out.append(("for", st[1], st[2], subst_closure_calls(st[3], fname, closure, True)))
         elif st[0] == "expr" and isinstance(st[1], tuple) and st[1][0] == "if":
             e = st[1]
             out.append(("expr", ("if", e[1], subst_closure_calls(e[2], fname, closure), subst_closure_calls(e[3], fname, closure) if e[3] is not None else None), st[2]))
